@@ -28,8 +28,7 @@ def run(ev, vd):
         out = os.path.join(BUILD, "tmp", "morph_%d.ndjson" % k)
         rc, o, dt = conc.run_harness(binp, [out, ev.seed * 100 + k, tier(), mode, loops, fl], topo=topo, timeout=(900 if tier() == "thorough" else 300))
         return j, out, rc, o
-    with cf.ThreadPoolExecutor(max_workers=8) as ex:
-        results = list(ex.map(job, list(enumerate(jobs))))
+    results = conc.pmap(job, list(enumerate(jobs)), lambda j: j[1][0])
     paths = []
     for (k, (mode, binp, topo, loops, fl)), out, rc, o in results:
         if rc == 124:
